@@ -18,7 +18,7 @@ use crate::operator::{
     IntoOpResult, OpError, OpRunContext, Operator, OutputList, OutputType, OutputTypeList,
     OutputTypesContext, PrepackedInput, static_dims,
 };
-use crate::ops::binary_elementwise::{add, broadcast_shapes};
+use crate::ops::binary_elementwise::{add, broadcast_shapes, mul};
 use crate::ops::layout::expand_to;
 use crate::shift_cast::ShiftCast;
 use crate::value::{DataType, ValueType, ValueView};
@@ -805,9 +805,26 @@ impl Operator for MatMulIntegerToFloat {
     }
 
     fn run(&self, ctx: &OpRunContext) -> Result<OutputList, OpError> {
-        let scale: TensorView<f32> = ctx.inputs().require_as(4)?;
-        let scale = OutputScale::from_view(scale)?;
+        let scale_input: TensorView<f32> = ctx.inputs().require_as(4)?;
+        let scale = OutputScale::from_view(scale_input.view())?;
         let output: Tensor<i32> = self.matmul.run(ctx)?.remove(0).try_into().unwrap();
+
+        // The fused scaling multiplies each column of the output by the
+        // corresponding scale, so a vector scale must have one element per
+        // column and must not add a dimension to the output. Any other scale
+        // is applied with broadcasting, as in the unfused
+        // `Mul(Cast(MatMulInteger(a, b)), scale)`.
+        let is_column_scale = match &scale {
+            OutputScale::Scalar(_) => scale_input.ndim() <= output.ndim(),
+            OutputScale::Vector(scale) => {
+                output.ndim() >= 1 && scale.size(0) == output.size(output.ndim() - 1)
+            }
+        };
+        if !is_column_scale {
+            let output = cast_scale(ctx.pool(), output, OutputScale::Scalar(1.))?;
+            return mul(ctx.pool(), output.view(), scale_input).into_op_result();
+        }
+
         cast_scale(ctx.pool(), output, scale).into_op_result()
     }
 
@@ -852,11 +869,12 @@ mod tests {
     use crate::buffer_pool::AutoReturn;
     use crate::buffer_pool::BufferPool;
     use crate::operator::{InputList, Operator, OutputMask};
-    use crate::ops::binary_elementwise::broadcast_shapes;
+    use crate::ops::binary_elementwise::{broadcast_shapes, mul};
 
     use super::{
-        FusedMatMul, MatMul, MatMulInteger, MatmulStrategy, OpError, OpRunContext, OutputScale,
-        cast_scale, gemm, matmul, matmul_fused, matmul_impl, matmul_integer,
+        FusedMatMul, MatMul, MatMulInteger, MatMulIntegerToFloat, MatmulStrategy, OpError,
+        OpRunContext, OutputScale, cast_scale, gemm, matmul, matmul_fused, matmul_impl,
+        matmul_integer,
     };
 
     fn gemm_tensors(c: &mut Tensor, a: &Tensor, b: &Tensor, alpha: f32, beta: f32) {
@@ -1585,6 +1603,117 @@ mod tests {
         expect_equal(&result, &expected)?;
 
         Ok(())
+    }
+
+    #[test]
+    fn test_matmul_integer_to_float() {
+        #[derive(Debug)]
+        struct Case {
+            a_shape: &'static [usize],
+            b_shape: &'static [usize],
+            scale: Tensor<f32>,
+            // Expected output shape, or `None` if the scale cannot be broadcast
+            // against the matmul output.
+            expected_shape: Option<&'static [usize]>,
+        }
+
+        let cases = [
+            // Scalar scale
+            Case {
+                a_shape: &[2, 2],
+                b_shape: &[2, 3],
+                scale: Tensor::from(0.5),
+                expected_shape: Some(&[2, 3]),
+            },
+            // Vector scale with one element
+            Case {
+                a_shape: &[2, 2],
+                b_shape: &[2, 3],
+                scale: Tensor::from([0.5]),
+                expected_shape: Some(&[2, 3]),
+            },
+            // Vector scale with one element per output column
+            Case {
+                a_shape: &[2, 2],
+                b_shape: &[2, 3],
+                scale: Tensor::from([0.5, 1., 1.5]),
+                expected_shape: Some(&[2, 3]),
+            },
+            Case {
+                a_shape: &[2, 2],
+                b_shape: &[2],
+                scale: Tensor::from([0.5, 1.]),
+                expected_shape: Some(&[2]),
+            },
+            // Vector scale that the output columns are broadcast against
+            Case {
+                a_shape: &[2, 2],
+                b_shape: &[2, 1],
+                scale: Tensor::from([0.5, 1.]),
+                expected_shape: Some(&[2, 2]),
+            },
+            // Vector scale that adds a dimension to a scalar output
+            Case {
+                a_shape: &[2],
+                b_shape: &[2],
+                scale: Tensor::from([0.5]),
+                expected_shape: Some(&[1]),
+            },
+            Case {
+                a_shape: &[2],
+                b_shape: &[2],
+                scale: Tensor::from([0.5, 1.]),
+                expected_shape: Some(&[2]),
+            },
+            // Vector scale that cannot be broadcast with the output
+            Case {
+                a_shape: &[2, 2],
+                b_shape: &[2, 3],
+                scale: Tensor::from([0.5, 1.]),
+                expected_shape: None,
+            },
+        ];
+
+        cases.test_each(|case| {
+            let mut rng = XorShiftRng::new(1234);
+            let a = Tensor::<u8>::rand(case.a_shape, &mut rng);
+            let b = Tensor::<i8>::rand(case.b_shape, &mut rng);
+            let a_zero = Tensor::from(3u8);
+            let b_zero = Tensor::from(-2i8);
+
+            let pool = BufferPool::new();
+
+            // Compute `Mul(Cast(MatMulInteger(a, b, a_zero, b_zero)), scale)`
+            // with separate operators.
+            let expected = matmul_integer(
+                &pool,
+                a.view(),
+                b.view(),
+                Some(a_zero.view()),
+                Some(b_zero.view()),
+                None,
+            )
+            .and_then(|product| mul(&pool, product.map(|x| *x as f32).view(), case.scale.view()));
+            assert_eq!(
+                expected.as_ref().ok().map(|t| t.shape()),
+                case.expected_shape
+            );
+
+            let op = MatMulIntegerToFloat::default();
+            let inputs = InputList::from(&[
+                a.view().into(),
+                b.view().into(),
+                a_zero.view().into(),
+                b_zero.view().into(),
+                case.scale.view().into(),
+            ]);
+            let ctx = OpRunContext::new(&pool, &inputs, OutputMask::all_used(1));
+            let result = op
+                .run(&ctx)
+                .map(|mut outputs| Tensor::<f32>::try_from(outputs.remove(0)).unwrap());
+
+            assert_eq!(result, expected);
+        })
     }
 
     /// Reference matmul that performs the integer multiply-add in `i32` and
